@@ -11,7 +11,8 @@ open Grol
 
 def suites : List (String × (String → String → CaseResult)) :=
   [ ("trie", TrieSuite.runCase),
-    ("parse", ParseSuite.runCase .c08), ("parse15", ParseSuite.runCase .c15) ]
+    ("parse", ParseSuite.runCase .c08), ("parse15", ParseSuite.runCase .c15),
+    ("format", FormatSuite.runCase .c02), ("format03", FormatSuite.runCase .c03) ]
 
 structure DAcc where
   cases : Nat := 0
